@@ -11,6 +11,7 @@ import Reamber.Generated.RateSchema
 import Reamber.Spec.Timing
 import Reamber.Lemmas.RateFormats
 import Reamber.Lemmas.RateSMWrite
+import Reamber.Lemmas.RateSMFull
 import Reamber.Props.C01
 import Reamber.Props.C06
 
@@ -307,6 +308,69 @@ theorem rate_write_read_sm_partial {r : Rat} (hr : 0 < r) (h : WHeader) (charts 
   have : -(1000 * (w.offsetSec / r)) = -(1000 * w.offsetSec) / r := by ring
   rw [this]
   exact rate_write_read_partial r _ _ _
+
+open SM C03 Timing in
+/-- **rate_write_read_sm** — StepMania, the whole file.  Take a set in C03's domain for `(t0, cs)` (`ChartWritten`:
+C10's domain for the shared tempo list, objects on the snap grid, `EventsOK`, non-overlapping holds / rolls; `out` the
+measures `SMMap.write` emits) and any `r > 0`.  Let `items` be the written file of the **rated** set: its `#NOTES`
+values are the rated charts `L.map (rateL r)` — which carry the *same* measures (`chartWritten_rate`: the rows do not
+move, `beats_rate`) — its `#OFFSET` parses to `offsetSec / r` and its `#BPMS` to the original pairs with every tempo
+multiplied by `r` (that this is what `SMMapSet.write` puts there is `sm_write_rate`).  Then the StepMania denotation of
+that file exists, is well-formed, has one chart per chart of the set, every chart is well-bracketed, and — read by row
+scanner, `4m + 4r/R`, latest-unclosed-head pairing and integration over the written `#BPMS` from `−1000·#OFFSET` — has
+exactly the **rated** objects: same kinds and columns, every time and every hold / roll length divided by `r`
+(as a multiset).  Composition of `chartWritten_rate`, `changesOf_rate` with C03's `write_read_exact`.
+
+What stays outside (and is C03's own remaining `_partial`, not specific to the rate change): that the *text* produced by
+`SMMapSet.write` is `renderItems items` for these items (`render_items_partial`), and the float renderer assumption
+behind "parses to" (`parseFloat (show q) = .ok q`).  `#SAMPLESTART` / `#SAMPLELENGTH` are covered at the `Written` level
+(`rate_write_read_sm_partial`), not in the text. -/
+theorem rate_write_read_sm {r : Rat} (hr : 0 < r) (t0 : Rat) (cs : List BcSnap)
+    (hwf : wfChanges cs = true) (hs : sortedSnaps cs = true) (h0 : firstAtZero cs = true)
+    (hgc : gridCompatible (grid defaultMaxDiv) cs = true) (hm : metronomeOk cs = true) (hM : ∀ c ∈ cs, c.met = 4)
+    (items : List Item) (hok : ∀ it ∈ items, ItemOk it)
+    (L : List (WChart × List (List Str) × (Str × Str × Str × Str × Str)))
+    (hL : ∀ x ∈ L, ChartWritten t0 cs x.1 x.2.1)
+    (hnotes : (valuesOf items).filter (tagIs tagNotes) = (L.map (rateL r)).map notesValue)
+    (offT bpmT : Str) (offsetSec : Rat) (bpms : List (Rat × Rat))
+    (hoffv : firstParam (valuesOf items) tagOffsetS = some offT) (hoff : parseFloat offT = .ok (offsetSec / r))
+    (hbpmv : firstParam (valuesOf items) tagBpmsS = some bpmT)
+    (hbpm : parsePairs bpmT = some (bpms.map (fun p => (p.1, p.2 * r))))
+    (ho : -(1000 * offsetSec) = t0) (hbp : changesOf bpms = cs) :
+    ∃ d, SM.denote (renderItems items) = some d ∧ d.offsetSec = some (offsetSec / r) ∧
+      d.bpms = some (bpms.map (fun p => (p.1, p.2 * r))) ∧
+      d.chartsWellFormed = true ∧ d.charts.length = L.length ∧
+      ∀ (i : Nat) (hi : i < L.length) (hd : i < d.charts.length),
+        (d.charts[i]).wellBracketed = true ∧
+        (timedNotes (offsetSec / r) (bpms.map (fun p => (p.1, p.2 * r))) d.charts[i]).Perm
+          ((L[i]).1.notes.map (fun n => (⟨n.kind, n.col, n.time / r, (timedOfW n).length / r⟩ : TNote))) := by
+  have hL' : ∀ x ∈ L.map (rateL r), ChartWritten (t0 / r) (cs.map (rateBc r)) x.1 x.2.1 := by
+    intro x hx
+    obtain ⟨x0, hx0, rfl⟩ := List.mem_map.mp hx
+    exact chartWritten_rate hr t0 cs hwf hs h0 hgc hm hM x0.1 x0.2.1 (hL x0 hx0)
+  have ho' : -(1000 * (offsetSec / r)) = t0 / r := by rw [← ho]; ring
+  have hbp' : changesOf (bpms.map (fun p => (p.1, p.2 * r))) = cs.map (rateBc r) := by rw [changesOf_rate, hbp]
+  obtain ⟨d, hd, h1, h2, h3, h4, h5⟩ := write_read_exact (t0 / r) (cs.map (rateBc r)) (wfChanges_rate hr cs hwf)
+    (by rw [sortedSnaps_rate]; exact hs) (by rw [firstAtZero_rate]; exact h0)
+    (by rw [gridCompatible_rate]; exact hgc) (by rw [metronomeOk_rate]; exact hm)
+    (by
+      intro c hc
+      obtain ⟨c0, hc0, rfl⟩ := List.mem_map.mp hc
+      exact hM c0 hc0)
+    items hok (L.map (rateL r)) hL' hnotes offT bpmT (offsetSec / r) (bpms.map (fun p => (p.1, p.2 * r)))
+    hoffv hoff hbpmv hbpm ho' hbp'
+  refine ⟨d, hd, h1, h2, h3, by simpa using h4, ?_⟩
+  intro i hi hdi
+  obtain ⟨_, hb, hp⟩ := h5 i (by simpa using hi) hdi
+  refine ⟨hb, ?_⟩
+  have e : ((L.map (rateL r))[i]'(by simpa using hi)).1.notes.map timedOfW
+      = (L[i]).1.notes.map (fun n => (⟨n.kind, n.col, n.time / r, (timedOfW n).length / r⟩ : TNote)) := by
+    simp only [List.getElem_map, rateL, rateW, List.map_map]
+    apply List.map_congr_left
+    intro n _
+    simp only [Function.comp_def, timedOfW_rate]
+  rw [← e]
+  exact hp
 
 /-- non-vacuity of `WChartOk`: one tempo (120 bpm from 1000 ms), a hit on beat 1 and a hold from beat 2 to 3 -/
 def exW : SM.WChart :=
